@@ -4,6 +4,7 @@ import (
 	"fmt"
 	"go/types"
 	"math/big"
+	"strings"
 
 	"golang.org/x/tools/go/ssa"
 )
@@ -93,10 +94,42 @@ func (ex *Exec) beBytes(v Term, n int) []Term { // n-byte big-endian of a non-ne
 		out[i] = r
 		cur = q
 	}
+	if !v.Const {
+		// remember the decomposition so that re-assembling exactly these bytes is syntactic
+		ex.assume(Eq(cur, IntC(0)))
+		if ex.beMemo == nil {
+			ex.beMemo = map[string]Term{}
+		}
+		ex.beMemo[beKey(out)] = v
+	}
 	return out
 }
 
+func beKey(bs []Term) string {
+	var sb strings.Builder
+	for _, b := range bs {
+		sb.WriteString(b.S)
+		sb.WriteByte(',')
+	}
+	return sb.String()
+}
+
 func (ex *Exec) beValue(bs []Term) Term {
+	// leading zero bytes do not change the value: look the significant suffixes up in the memo
+	for i := 0; i < len(bs); i++ {
+		if v, ok := ex.beMemo[beKey(bs[i:])]; ok {
+			lead := true
+			for _, z := range bs[:i] {
+				lead = lead && z.Const && z.I.Sign() == 0
+			}
+			if lead {
+				return v
+			}
+		}
+		if !(bs[i].Const && bs[i].I.Sign() == 0) {
+			break
+		}
+	}
 	v := IntC(0)
 	for _, b := range bs {
 		v = Add(Mul(v, IntC(256)), b)
